@@ -79,8 +79,12 @@ enum Oracle {
     Over(u64),      // stub + extra
     Tight(bool),    // largest count that fits (false) / smallest that does not (true), capped
     Random(u64),    // seeded: None or 0..=5
-    Flip,           // huge, None, then stub
-    Script(Vec<i64>), // replay of logged answers (-1 = None; None once exhausted)
+    Flip,           // 10^6, None, then stub
+    /// an answer whose fees cannot be paid by any balance, for the first `k` questions, then the stub.
+    /// kind 0: 9 * 10^18; 1: usize::MAX; 2: the smallest n with n * fee > u64::MAX; 3: the largest n
+    /// with n * fee <= u64::MAX (the product is representable, product + notes may not be)
+    Huge(u8, usize),
+    Script(Vec<i128>), // replay of logged answers (-1 = None; None once exhausted)
 }
 
 #[derive(Clone, Debug)]
@@ -96,14 +100,15 @@ struct Input {
 }
 
 struct Run {
-    plan: DenominationPlan,
-    answers: Vec<i64>,
+    /// Err: the call panicked (the answers given up to that point are still recorded)
+    plan: Result<DenominationPlan, String>,
+    answers: Vec<i128>,
     queries: Vec<Vec<u64>>,
 }
 
-fn call<R: RngCore + CryptoRng>(inp: &Input, nc: usize, script: Option<&[i64]>, rng: &mut R) -> Result<Run, String> {
+fn call<R: RngCore + CryptoRng>(inp: &Input, nc: usize, script: Option<&[i128]>, rng: &mut R) -> Run {
     let idx = Cell::new(0usize);
-    let answers: RefCell<Vec<i64>> = RefCell::new(vec![]);
+    let answers: RefCell<Vec<i128>> = RefCell::new(vec![]);
     let queries: RefCell<Vec<Vec<u64>>> = RefCell::new(vec![]);
     let total = inp.total;
     let fee = inp.fee;
@@ -152,6 +157,18 @@ fn call<R: RngCore + CryptoRng>(inp: &Input, nc: usize, script: Option<&[i64]>, 
                     Some(&x) if x >= 0 => Some(x as usize),
                     _ => None,
                 },
+                Oracle::Huge(kind, k) => {
+                    if i < *k {
+                        Some(match kind {
+                            0 => 9_000_000_000_000_000_000usize,
+                            1 => usize::MAX,
+                            2 => if fee == 0 { usize::MAX } else { ((u64::MAX / fee) as usize).saturating_add(1) },
+                            _ => if fee == 0 { usize::MAX - 1 } else { (u64::MAX / fee) as usize },
+                        })
+                    } else {
+                        Some(stub)
+                    }
+                }
                 Oracle::Flip => match i % 3 {
                     0 => Some(1_000_000),
                     1 => None,
@@ -159,7 +176,7 @@ fn call<R: RngCore + CryptoRng>(inp: &Input, nc: usize, script: Option<&[i64]>, 
                 },
             }
         };
-        answers.borrow_mut().push(ans.map(|a| a as i64).unwrap_or(-1));
+        answers.borrow_mut().push(ans.map(|a| a as i128).unwrap_or(-1));
         queries.borrow_mut().push(q);
         ans
     };
@@ -175,8 +192,13 @@ fn call<R: RngCore + CryptoRng>(inp: &Input, nc: usize, script: Option<&[i64]>, 
         ),
         Some((min_exp, max_denom)) => CanonicalOneTwoFive::new(inp.cap, zat(max_denom), zat(10u64.pow(min_exp)), zat(inp.buffer))
             .plan(zat(inp.total), nc, zat(inp.fee), &oracle, rng),
-    })?;
-    Ok(Run { plan, answers: answers.into_inner(), queries: queries.into_inner() })
+    });
+    Run { plan, answers: answers.into_inner(), queries: queries.into_inner() }
+}
+
+/// oracle answers in the trace: a digit array, or [-1] for None (counts up to usize::MAX occur)
+fn answers_json(a: &[i128]) -> Value {
+    Value::Array(a.iter().map(|&x| if x < 0 { json!([-1]) } else { dg(x as u64) }).collect())
 }
 
 fn stored_same(p: &DenominationPlan) -> bool {
@@ -204,12 +226,13 @@ fn plan_event(inp: &Input, seq: u64) -> Value {
         "oracle": format!("{:?}", inp.oracle),
     });
     let o = ev.as_object_mut().unwrap();
-    let first = call(inp, inp.nc, None, &mut ChaCha20Rng::seed_from_u64(seq));
-    match first {
+    let run = call(inp, inp.nc, None, &mut ChaCha20Rng::seed_from_u64(seq));
+    o.insert("answers".into(), answers_json(&run.answers));
+    match &run.plan {
         Err(msg) => {
             o.insert("outcome".into(), json!("panic"));
             o.insert("panic".into(), json!(msg));
-            for k in ["answers", "q0", "qlens", "crossings", "outputs"] {
+            for k in ["q0", "qlens", "crossings", "outputs"] {
                 o.insert(k.into(), json!([]));
             }
             for k in ["change", "prepFees", "totalInput", "migratable", "bufferOut"] {
@@ -219,11 +242,9 @@ fn plan_event(inp: &Input, seq: u64) -> Value {
                 o.insert(k.into(), json!(false));
             }
         }
-        Ok(run) => {
-            let p = &run.plan;
+        Ok(p) => {
             o.insert("outcome".into(), json!("ok"));
             o.insert("panic".into(), json!(""));
-            o.insert("answers".into(), json!(run.answers));
             let q0 = run.queries.first().cloned().unwrap_or_default();
             o.insert("q0".into(), dgs(&q0));
             o.insert("qlens".into(), json!(run.queries.iter().map(|q| q.len()).collect::<Vec<_>>()));
@@ -244,7 +265,7 @@ fn plan_event(inp: &Input, seq: u64) -> Value {
             o.insert("bufferOut".into(), dg(u64::from(p.note_fee_buffer())));
             // the plan does not depend on the random generator: same answers, three other generators
             let script = run.answers.clone();
-            let same = |r: Result<Run, String>| matches!(r, Ok(x) if x.plan == *p && x.answers == script);
+            let same = |r: Run| matches!(&r.plan, Ok(x) if x == p) && r.answers == script;
             let rng_same = same(call(inp, inp.nc, Some(&script), &mut ChaCha20Rng::seed_from_u64(!seq)))
                 && same(call(inp, inp.nc, Some(&script), &mut ConstRng(0)))
                 && same(call(inp, inp.nc, Some(&script), &mut ConstRng(u64::MAX)));
@@ -355,7 +376,12 @@ fn replay(input: &str, out: &str) {
                 } else {
                     None
                 };
-                let script: Vec<i64> = r["answers"].as_array().unwrap().iter().map(|a| a.as_i64().unwrap()).collect();
+                let script: Vec<i128> = r["answers"]
+                    .as_array()
+                    .unwrap()
+                    .iter()
+                    .map(|a| if a[0].as_i64() == Some(-1) { -1 } else { from_dg(a) as i128 })
+                    .collect();
                 let inp = Input {
                     custom,
                     cap: r["cap"].as_u64().unwrap() as usize,
@@ -423,6 +449,8 @@ fn main() {
             Oracle::Tight(true),
             Oracle::Random(g.r#gen()),
             Oracle::Flip,
+            Oracle::Huge(g.gen_range(0..4), [1usize, 2, 100][g.gen_range(0..3)]),
+            Oracle::Huge(g.gen_range(0..4), 1),
         ];
         if all {
             let mut v = vec![Oracle::Assumed];
